@@ -120,11 +120,12 @@ Section INIT.
       + intros q X. rewrite S2 in X. discriminate.
       + intros X. contradiction.
       + intros _ _. exact S3.
+      + intros e1 [].
     - rewrite idler_init. apply (proj1 (state_init n)).
   Qed.
 
   Lemma init_TI : TI progs st0.
-  Proof. intros ev []. Qed.
+  Proof. split; [intros ev []|exact I]. Qed.
 End INIT.
 
 Lemma run_GI_TI fuel ps : ps <> [] -> NZ_progs ps ->
@@ -165,7 +166,7 @@ Section CONTRACT.
        (ev_err ev = EPERM \/
         (ev_err ev <> 0 /\ src_ok (core_progs ps) (s_trace (run_state fuel ps)) (ev_tid ev) (ev_err ev) (ev_src ev)))).
   Proof.
-    destruct (run_GI_TI fuel ps Hne Hnz) as (_ & T). destruct (T ev Hin) as (A & B & _).
+    destruct (run_GI_TI fuel ps Hne Hnz) as (_ & T). destruct (proj1 T ev Hin) as (A & B & _).
     split; [exact A|]. exact (B d (ev_op_core ps ev _ Hop)).
   Qed.
 
